@@ -3079,11 +3079,7 @@ func strToInt32(s unistring.String) (int32, bool) {
 		return -1, false
 	} else {
 		c9 := s[9]
-		if c9 >= '0' {
-			if !neg && c9 > '7' || c9 > '8' {
-				// guaranteed to overflow
-				return -1, false
-			}
+		if c9 >= '0' && c9 <= '9' {
 			for i := 0; i < 9; i++ {
 				c := s[i]
 				if c < '0' || c > '9' {
@@ -3094,6 +3090,10 @@ func strToInt32(s unistring.String) (int32, bool) {
 			if n >= math.MaxInt32/10+1 {
 				// valid number, but it overflows integer
 				return 0, false
+			}
+			if n == math.MaxInt32/10 && (!neg && c9 > '7' || c9 > '8') {
+				// overflows in the last digit
+				return -1, false
 			}
 			n = n*10 + uint32(c9-'0')
 		} else {
@@ -3139,11 +3139,7 @@ func strToInt64(s unistring.String) (int64, bool) {
 		return -1, false
 	} else {
 		c18 := s[18]
-		if c18 >= '0' {
-			if !neg && c18 > '7' || c18 > '8' {
-				// guaranteed to overflow
-				return -1, false
-			}
+		if c18 >= '0' && c18 <= '9' {
 			for i := 0; i < 18; i++ {
 				c := s[i]
 				if c < '0' || c > '9' {
@@ -3154,6 +3150,10 @@ func strToInt64(s unistring.String) (int64, bool) {
 			if n >= math.MaxInt64/10+1 {
 				// valid number, but it overflows integer
 				return 0, false
+			}
+			if n == math.MaxInt64/10 && (!neg && c18 > '7' || c18 > '8') {
+				// overflows in the last digit
+				return -1, false
 			}
 			n = n*10 + uint64(c18-'0')
 		} else {
